@@ -326,6 +326,13 @@ class is_flag_active_visitor<Flag, flag_and>""")]),
                     end_interrupt_events,
                     typename StateMachine::internal::state_set>>>;""", """        using event_set = generate_event_set<
             typename StateMachine::front_end_t::transition_table>;""")]),
+ dict(name='fct-gcc-branch-skips-first-row', prop='C01', rule='C01.plan', edits=[('include/boost/msm/backmp11/favor_compile_time.hpp', """#if defined(__GNUC__) && !defined(__clang__)
+                mp11::mp_for_each<init_cell_constants>(""", """#if defined(__GNUC__) && !defined(__clang__)
+                mp11::mp_for_each<mp11::mp_pop_front<init_cell_constants>>(""")]),
+ dict(name='fct-gcc-branch-wrong-chain', prop='C01', rule='C01.plan', edits=[('include/boost/msm/backmp11/favor_compile_time.hpp', """                        m_state_dispatch_tables[constant.value.state_id].add_transition_cell(constant.value);""", """                        m_state_dispatch_tables[0].add_transition_cell(constant.value);""")]),
+ dict(name='fct-clang-branch-reversed', prop='C01', rule='C01.plan', edits=[('include/boost/msm/backmp11/favor_compile_time.hpp', """                value_array<init_cell_constants> value_array;
+                for (const init_cell_value& value: value_array.value)""", """                value_array<mp11::mp_reverse<init_cell_constants>> value_array;
+                for (const init_cell_value& value: value_array.value)""")]),
  dict(name='revert-d20-puml-terminate-suffix', prop='C14', rule='C14.puml', edits=[('include/boost/msm/front/puml/puml.hpp', """cleanup_token(stt().substr(endl_before_pos + 1, arrow_pos - endl_before_pos - 1)) == state_name())""", """cleanup_token(stt().substr(state_pos, arrow_pos - state_pos)) == state_name())""")]),
  dict(name='flagfold-back11-early-break', prop='C17', rule='C17.pure', edits=[(B11, """            res = typename BinaryOp::type() (res,(*flags_entries[ m_states[i] ])(*this));""", """            res = typename BinaryOp::type() (res,(*flags_entries[ m_states[i] ])(*this));
             if (res) break;""")]),
